@@ -62,7 +62,7 @@ pub fn check_case(rep: &Report, case: &Case, local: &mut Local, worker_counts: &
                 Ok(s) => s,
                 Err(e) => {
                     local.outcome(&format!("fail:{}", e.class()));
-                    rep.violation(&format!("encode_fail|{}", e.class()), &format!("{label}: {}", e.describe()), c.json(), c.weight());
+                    rep.violation_x(mode == Mode::Mt, &format!("encode_fail|{}", e.class()), &format!("{label}: {}", e.describe()), c.json(), c.weight());
                     continue;
                 }
             };
@@ -100,15 +100,16 @@ pub fn check_case(rep: &Report, case: &Case, local: &mut Local, worker_counts: &
             let mut ok = true;
             if (got.0, got.1, got.2) != (want.0, want.1, want.2) {
                 ok = false;
-                rep.violation("format_fields", &format!("{label}: STREAMINFO states rate/ch/bps {:?}, source has {:?}", (got.0, got.1, got.2), (want.0, want.1, want.2)), c.json(), c.weight());
+                rep.violation_x(mode == Mode::Mt, "format_fields", &format!("{label}: STREAMINFO states rate/ch/bps {:?}, source has {:?}", (got.0, got.1, got.2), (want.0, want.1, want.2)), c.json(), c.weight());
             }
             if got.3 != want.3 {
                 ok = false;
-                rep.violation("total_samples", &format!("{label}: STREAMINFO total samples {} but the source delivered {}", got.3, want.3), c.json(), c.weight());
+                rep.violation_x(mode == Mode::Mt, "total_samples", &format!("{label}: STREAMINFO total samples {} but the source delivered {}", got.3, want.3), c.json(), c.weight());
             }
             if got.4 != want.4 {
                 ok = false;
-                rep.violation(
+                rep.violation_x(
+                    mode == Mode::Mt,
                     if inp.len() == 0 { "md5_empty_input" } else { "md5" },
                     &format!("{label}: STREAMINFO MD5 {:02x?} differs from the MD5 of the little-endian input {:02x?}", got.4, want.4),
                     c.json(),
@@ -122,7 +123,7 @@ pub fn check_case(rep: &Report, case: &Case, local: &mut Local, worker_counts: &
     if let Some((l0, f0)) = seen.first() {
         for (l, f) in &seen[1..] {
             if f != f0 {
-                rep.violation("delivery_or_mode_dependence", &format!("STREAMINFO differs between {l0} and {l}"), case.json(), case.weight());
+                rep.violation_conclusive("delivery_or_mode_dependence", &format!("STREAMINFO differs between {l0} and {l}"), case.json(), case.weight());
             }
         }
     }
@@ -144,7 +145,7 @@ pub fn cases(thorough: bool) -> Vec<Case> {
                     for full in 0..=2u8 {
                         for &tail in &[0u32, 1, 15, 17, bs - 1] {
                             v.push(Case {
-                                input: Input { ch, bps, rate: 44100, bs, full, tail, atoms: [a, (a + 1) % 28, a, a], rel: 0, delivery: 0, seed: 0 },
+                                input: Input { ch, bps, rate: 44100, bs, full: full.into(), tail, atoms: [a, (a + 1) % 28, a, a], rel: 0, delivery: 0, seed: 0 },
                                 cfg: Cfg::default(),
                             });
                         }
@@ -158,7 +159,7 @@ pub fn cases(thorough: bool) -> Vec<Case> {
         for &ch in &[1u8, 2, 8] {
             for &(full, tail) in &[(0u8, 1u32), (1, 0), (1, 4095), (2, 17)] {
                 v.push(Case {
-                    input: Input { ch, bps, rate: 96000, bs: 4096, full, tail, atoms: [22, 4, 10, 2], rel: 0, delivery: 0, seed: 0 },
+                    input: Input { ch, bps, rate: 96000, bs: 4096, full: full.into(), tail, atoms: [22, 4, 10, 2], rel: 0, delivery: 0, seed: 0 },
                     cfg: Cfg::default(),
                 });
             }
